@@ -23,14 +23,17 @@ fn rule_sets() -> Vec<(&'static str, Vec<Rule>)> {
 
 // incl. tags that carry a post / dev / epoch part without a pre-release
 const TAGS: [&str; 9] = ["1.2.3", "0.0.0", "1.2.3-rc.1", "1.2.3-alpha.5.post.2", "1.2.3.post3", "2!1.2.3", "1.2.3-post.4", "1.2.3-epoch.2.post.4.dev.9", "1.2.3-dev.9"];
-const BRANCHES: [Option<&str>; 43] = [None, Some("main"), Some("develop"), Some("developx"), Some("release"), Some("release/1"), Some("release/1/x"), Some("release/x"),
+const BRANCHES: [Option<&str>; 49] = [None, Some("main"), Some("develop"), Some("developx"), Some("release"), Some("release/1"), Some("release/1/x"), Some("release/x"),
     Some("release/x/7"), Some("release/007"), Some("releasex"), Some("release1"), Some("releases/2"), Some("feature/7/foo"), Some("99"), Some("a/b/10"), Some("a/3"),
     Some("feature/4294967296"), Some("fé"), Some("staging"), Some("qa/5"), Some("qa/x"), Some("qa"),
     Some("feature/+5/login"), Some("release/+7"), Some("a/-3"), Some("feature/99999999999/7"),
     // white space, non-ASCII digit, case, empty / leading segments, zero, an exact-rule name used as a prefix
     Some("release/1 "), Some("release/ 1"), Some("release/٣"), Some("release/1_2"), Some("RELEASE/1"), Some("release//5"), Some("/release/1"), Some("release/0"),
     Some("release/00"), Some("develop/3"), Some("release/1/2"), Some("release/x/"),
-    Some("2024/rel/3"), Some("2024/topic"), Some("team/7/fix/12"), Some("team/7/x")];
+    Some("2024/rel/3"), Some("2024/topic"), Some("team/7/fix/12"), Some("team/7/x"),
+    // a segment of numeric characters that are not ASCII digits (Arabic-Indic, full-width, superscript), alone or mixed with
+    // ASCII digits, before a real number segment: only an all-ASCII-digit segment is "numeric"
+    Some("release/٣/4"), Some("release/１２/7"), Some("qa/²/5"), Some("release/1٣/6"), Some("feature/٣x/8"), Some("release/½/9")];
 
 #[derive(Clone, Debug)]
 struct Case { tag: usize, branch: usize, distance: Option<u64>, dirty_flag: usize, post: Option<u64>, label: Option<&'static str>, num: Option<u32>, mode: Option<&'static str>, rules: usize, hash_len: Option<usize>, stdin: bool }
